@@ -113,6 +113,13 @@ class DuelingDistributionalMLP(EvolvableMLP):
             name="advantage",
         )
 
+    def get_init_dict(self) -> Dict[str, Any]:
+        """Returns the constructor arguments. The underlying `EvolvableMLP` (value net) has
+        `num_atoms` outputs, whereas `num_outputs` of this class is the number of actions."""
+        init_dict = super().get_init_dict()
+        init_dict["num_outputs"] = self.num_actions
+        return init_dict
+
     @property
     def net_config(self) -> Dict[str, Any]:
         net_config = super().net_config.copy()
